@@ -76,7 +76,7 @@ def _worker(args):
     rng = random.Random(wseed)
     drv = Driver()
     try:
-        if prop == "C04":
+        if prop in ("C04", "C05"):
             CC2.check_goal_function(drv, rng, lambda t, s_, d, r: fails.append((sorted(t), s_, d, r)), stats, 8000)
         CC2.run_sessions(drv, rng, tables, lambda t, s_, d, r: fails.append((sorted(t), s_, d, r)), stats, n_sessions, n_events, profile)
         for share, prof in EXTRA.get(prop, []):
@@ -88,7 +88,7 @@ def _worker(args):
             CC2.twin_sessions(drv, rng, tables, lambda t, s_, d, r: fails.append((sorted(t), s_, d, r)), stats, max(4, n_sessions // 5))
         if prop == "C07":
             CC2.directed_late_joiner(drv, rng, tables, lambda t, s_, d, r: fails.append((sorted(t), s_, d, r)), stats, max(4, n_sessions // 20))
-        if prop in ("C10", "C18", "C01"):
+        if prop in ("C10", "C18", "C01", "C06"):
             CC2.directed_shared_block(drv, rng, tables, lambda t, s_, d, r: fails.append((sorted(t), s_, d, r)), stats, max(4, n_sessions // 20))
         if prop in ("C04", "C18", "C01", "C16"):
             CC2.directed_defender(drv, rng, tables, lambda t, s_, d, r: fails.append((sorted(t), s_, d, r)), stats, max(4, n_sessions // 20))
@@ -127,6 +127,8 @@ def main(prop, tier):
             CC.probe_leave_unwritable_store(on_fail, stats)
         if prop == "C18":
             CC.probe_same_peer_slots(on_fail, stats)
+        if prop in ("C18", "C01", "C10"):
+            CC.probe_start_position_without_blocks(on_fail, stats)
         if prop in ("C01", "C09"):
             CC.probe_marker_in_values(on_fail, stats)
     if info.get("build_ok") and info.get("tables") and tier != "quick":
@@ -148,7 +150,7 @@ def main(prop, tier):
         try:
             n_sessions = 150
             n_events = 45
-            if prop == "C04":
+            if prop in ("C04", "C05"):
                 CC.check_goal_function(drv, rng, on_fail, stats, 3000)
             CC.run_sessions(drv, rng, info["tables"]["defender"], on_fail, stats, n_sessions, n_events, PROFILES[prop])
             for share, prof in EXTRA.get(prop, []):
@@ -158,7 +160,7 @@ def main(prop, tier):
                 CC.directed_races(drv, rng, info["tables"]["defender"], on_fail, stats, 24)
             if prop == "C09":
                 CC.twin_sessions(drv, rng, info["tables"]["defender"], on_fail, stats, 40)
-            if prop in ("C10", "C18", "C01"):
+            if prop in ("C10", "C18", "C01", "C06"):
                 CC.directed_shared_block(drv, rng, info["tables"]["defender"], on_fail, stats, 10)
             if prop == "C07":
                 CC.directed_late_joiner(drv, rng, info["tables"]["defender"], on_fail, stats, 10)
